@@ -160,6 +160,11 @@ func (e *Exec) buildSummary(fn *ssa.Function, args []Value, bind []Value) (sum *
 	e.freshPfx = fmt.Sprintf("m%d.", e.mergeSeq)
 	e.mergeDepth++
 	e.mergeEpoch = e.objSeq
+	// the summary is cached and reused under other path conditions, so no
+	// sub-path may be pruned because it is infeasible under the current one
+	sLazy, sUnchecked := e.cfg.LazyFeas, e.lazyUnchecked
+	e.cfg.LazyFeas = true
+	defer func() { e.cfg.LazyFeas, e.lazyUnchecked = sLazy, sUnchecked }()
 	pcMark := len(e.pcLines)
 	symMark := len(e.syms)
 	memo := make(map[string]Value, len(e.lazyMemo))
